@@ -1,5 +1,5 @@
 (** C16 - embedded shader source is byte-identical to the input. *)
-From W2W Require Import Wf GenInv Escape.
+From W2W Require Import Wf GenInv Escape Render.
 
 (** the string literal printed for the source evaluates to exactly the source, for every string and every
     table of characters that escape_debug prints as \u{..} *)
@@ -39,3 +39,21 @@ Proof.
   inversion Ha; subst a. inversion Hb; subst b. reflexivity.
 Qed.
 Print Assumptions C16_include_only_source.
+
+(** ... at the level of the returned text: the embedded module is [pre ++ "pub const SOURCE: &str =" ++ the string
+    literal whose VALUE is the input ++ post], the include variant is the same [pre] and [post] around
+    [include_str!(<the given path>)]; nothing else differs *)
+Theorem C16_text : forall m src p o a b,
+  gen m src None o = Ok a -> gen m src (Some p) o = Ok b ->
+  exists pre post,
+    render a = pre ++ source_head ++ [TS src] ++ post /\
+    render b = pre ++ source_head ++ (lex "include_str!(" ++ [TS p; T ")"]) ++ post.
+Proof.
+  intros m src p o a b Ha Hb.
+  pose proof (C16_source_field _ _ _ _ _ Ha) as Hsa. cbn in Hsa.
+  pose proof (C16_include_only_source _ _ _ _ _ _ Ha Hb) as Hb'. subst b.
+  exists (flat_map r_struct (o_structs a) ++ render_mid a), (render_post a). split.
+  - unfold render, render_rest. rewrite Hsa. rewrite <- app_assoc. reflexivity.
+  - destruct a. unfold render, render_rest. rewrite <- app_assoc. reflexivity.
+Qed.
+Print Assumptions C16_text.
